@@ -2379,3 +2379,19 @@ package sarama
 //@   callsite Broker.FetchOffset: requires[sent_to_the_groups_coordinator] $recv == coordOf(group) && $request != nil && $request.ConsumerGroup == group && $request.partitions == topicPartitions
 //@   callsite Broker.FetchOffset: requires[version_by_kafka_version] $request.Version == ite(verAtLeast(ca.conf.Version, V0_10_2_0), 2, ite(verAtLeast(ca.conf.Version, V0_8_2_2), 1, 0))
 //@   nosafety
+
+// AlterPartitionReassignments (C19, controller-bound): like the other controller-bound operations, a NOT_CONTROLLER
+// answer must make the admin refresh the controller and hand the retry wrapper an error it recognises as retriable;
+// success only if the broker reported no error at all.
+//@ func (b *Broker) AlterPartitionReassignments(request) trusted
+//@   returns rsp, err
+//@   ensures err == nil ==> rsp != nil
+//@   modifies nothing
+//@ func clusterAdmin.AlterPartitionReassignments#lit0() props C19
+//@   returns e
+//@   per_return
+//@   loop 0: invariant rsp != nil && (rsp.ErrorCode > 0 ==> len(errs) > 0)
+//@   loop 1: invariant rsp != nil && (rsp.ErrorCode > 0 ==> len(errs) > 0)
+//@   ensures[success_only_if_broker_said_so] e == nil ==> rsp != nil && rsp.ErrorCode <= 0
+//@   ensures[refresh_on_not_controller] rsp != nil && err == nil && rsp.ErrorCode == ErrNotController ==> ca.refreshes == old(ca.refreshes) + 1 && e != nil && ((dyntype(e) == typeid(KError) && e == ErrNotController) || (dyntype(e) == typeid(*TopicError) && e.(*TopicError).Err == ErrNotController) || (dyntype(e) == typeid(*TopicPartitionError) && e.(*TopicPartitionError).Err == ErrNotController))
+//@   nosafety
